@@ -2,16 +2,22 @@ package props
 
 import (
 	"bytes"
+	"crypto/sha512"
 	"encoding/json"
 	"fmt"
 	"os"
+	"path/filepath"
 	"testing"
 	"testing/synctest"
 	"time"
 
+	"github.com/corestario/kyber"
+	bls12381 "github.com/corestario/kyber/pairing/bls12381"
 	dkgped "github.com/corestario/kyber/share/dkg/pedersen"
+	vss "github.com/corestario/kyber/share/vss/pedersen"
 	"pgregory.net/rapid"
 
+	"github.com/lidofinance/dc4bc/client/types"
 	"github.com/lidofinance/dc4bc/fsm/types/requests"
 
 	"verif/harness/vstat"
@@ -159,6 +165,154 @@ func c04RunNonce(t *testing.T, st *vstat.Stats, p c04NoncePlan) (v *viol) {
 		st.Class("nonce-streams:" + p.Family)
 		st.NonTrivial(fmt.Sprintf("nonce/%v", p.Rounds))
 		st.SampleEvery(8, map[string]any{"family": p.Family, "rounds": fmt.Sprint(p.Rounds), "nonce_pairs_compared": compared})
+	})
+	return v
+}
+
+// ---- the same stream after a restart: a replayed round must not sign other messages with nonces it has used already ----
+
+type c04ReplayPlan struct {
+	N       int `json:"n"`
+	T       int `json:"t"`
+	Machine int `json:"machine"`
+	Replays int `json:"replays"` // restarts (reopen + documented replay of the round's operation log) after the round finished
+}
+
+func c04GenReplay(rt *rapid.T) c04ReplayPlan {
+	n := rapid.IntRange(3, 5).Draw(rt, "n")
+	return c04ReplayPlan{N: n, T: rapid.IntRange(2, n).Draw(rt, "t"), Machine: rapid.IntRange(0, n-1).Draw(rt, "machine"), Replays: rapid.IntRange(2, 5).Draw(rt, "replays")}
+}
+
+type signedResponse struct {
+	About uint32 // the dealer the response is about
+	Msg   []byte // what the signature covers
+	Sig   []byte
+	Where string
+}
+
+func signedResponses(suite vss.Suite, data []byte, where string) (out []signedResponse) {
+	var req requests.DKGProposalResponseConfirmationRequest
+	var rs []*dkgped.Response
+	if json.Unmarshal(data, &req) != nil || json.Unmarshal(req.Response, &rs) != nil {
+		return nil
+	}
+	for _, r := range rs {
+		if r != nil && r.Response != nil && len(r.Response.Signature) > 32 {
+			out = append(out, signedResponse{About: r.Index, Msg: r.Response.Hash(suite), Sig: r.Response.Signature, Where: where})
+		}
+	}
+	return out
+}
+
+// recoverSchnorrKey computes the signer's private key from two Schnorr signatures that share their nonce.
+func recoverSchnorrKey(g kyber.Group, pub kyber.Point, a, b signedResponse) (kyber.Scalar, bool) {
+	plen := len(a.Sig) - g.ScalarLen()
+	if plen <= 0 || len(b.Sig) != len(a.Sig) {
+		return nil, false
+	}
+	R := g.Point()
+	if R.UnmarshalBinary(a.Sig[:plen]) != nil {
+		return nil, false
+	}
+	hashOf := func(msg []byte) kyber.Scalar {
+		h := sha512.New()
+		_, _ = R.MarshalTo(h)
+		_, _ = pub.MarshalTo(h)
+		_, _ = h.Write(msg)
+		return g.Scalar().SetBytes(h.Sum(nil))
+	}
+	s1, s2 := g.Scalar(), g.Scalar()
+	if s1.UnmarshalBinary(a.Sig[plen:]) != nil || s2.UnmarshalBinary(b.Sig[plen:]) != nil {
+		return nil, false
+	}
+	dh := g.Scalar().Sub(hashOf(a.Msg), hashOf(b.Msg))
+	if dh.Equal(g.Scalar().Zero()) {
+		return nil, false
+	}
+	x := g.Scalar().Div(g.Scalar().Sub(s1, s2), dh)
+	return x, g.Point().Mul(x, nil).Equal(pub)
+}
+
+func c04RunReplay(t *testing.T, st *vstat.Stats, p c04ReplayPlan) (v *viol) {
+	synctest.Test(t, func(t *testing.T) {
+		root := tmpRoot("c04p-")
+		defer os.RemoveAll(root)
+		w, err := world.New(world.Config{N: p.N, Seed: []byte(fmt.Sprintf("c04p|%d", p.N)), Root: root})
+		if err != nil {
+			v = violf("harness", "%v", err)
+			return
+		}
+		defer w.Close()
+		round, err := w.StartDKG(0, p.T, nil)
+		if err == nil {
+			err = w.Quiesce(80)
+		}
+		if err != nil {
+			v = violf("harness", "ceremony: %v", err)
+			return
+		}
+		suite := bls12381.NewBLS12381Suite(nil)
+		m := w.Machines[p.Machine]
+		pub := m.M.GetPubKey()
+		var seen []signedResponse
+		for _, bm := range w.Board.All() {
+			if bm.DkgRoundID == round && bm.Event == "event_dkg_response_confirm_received" && bm.SenderAddr == w.Names[p.Machine] {
+				seen = append(seen, signedResponses(suite, bm.Data, fmt.Sprintf("board message %d", bm.Offset))...)
+			}
+		}
+		if len(seen) != p.N-1 {
+			v = violf("harness", "participant %d broadcast %d signed responses, expected %d", p.Machine, len(seen), p.N-1)
+			return
+		}
+		check := func(fresh []signedResponse) *viol {
+			for _, a := range fresh {
+				for _, b := range seen {
+					plen := len(a.Sig) - 32
+					if plen <= 0 || len(b.Sig) != len(a.Sig) || !bytes.Equal(a.Sig[:plen], b.Sig[:plen]) || bytes.Equal(a.Msg, b.Msg) {
+						continue
+					}
+					x, ok := recoverSchnorrKey(suite, pub, a, b)
+					return violf("private-key-recoverable-from-results", "n=%d t=%d participant %d: its response about dealer %d in %s and its response about dealer %d in %s are signed with the same Schnorr nonce; the long-term DKG private key computed from the two public signatures matches the machine's public key: %v (x=%v…)", p.N, p.T, p.Machine, b.About, b.Where, a.About, a.Where, ok, clip(fmt.Sprint(x), 12))
+				}
+			}
+			return nil
+		}
+		for k := 0; k < p.Replays; k++ {
+			if err := m.Reopen(); err != nil {
+				v = violf("harness", "reopen: %v", err)
+				return
+			}
+			if err := m.M.ReplayOperationsLog(round); err != nil {
+				v = violf("harness", "replay: %v", err)
+				return
+			}
+			ents, _ := os.ReadDir(m.ResultDir)
+			var fresh []signedResponse
+			for _, e := range ents {
+				bz, err := os.ReadFile(filepath.Join(m.ResultDir, e.Name()))
+				var op types.Operation
+				if err != nil || json.Unmarshal(bz, &op) != nil || op.DKGIdentifier != round {
+					continue
+				}
+				for _, rm := range op.ResultMsgs {
+					if rm.Event == "event_dkg_response_confirm_received" {
+						fresh = append(fresh, signedResponses(suite, rm.Data, fmt.Sprintf("result file %s rewritten by replay %d", e.Name(), k+1))...)
+					}
+				}
+			}
+			if len(fresh) == 0 {
+				v = violf("harness", "replay %d left no responses result file in %s", k+1, m.ResultDir)
+				return
+			}
+			if vv := check(fresh); vv != nil {
+				v = vv
+				return
+			}
+			seen = append(seen, fresh...)
+		}
+		st.Class("replay-nonces:no-nonce-signs-two-messages")
+		st.NonTrivial(fmt.Sprintf("replaynonce/%d/%d/%d/%d", p.N, p.T, p.Machine, p.Replays))
+		st.SampleEvery(10, map[string]any{"n": p.N, "t": p.T, "machine": p.Machine, "restarts_with_replay": p.Replays, "signed_responses_compared": len(seen)})
 	})
 	return v
 }
